@@ -97,6 +97,7 @@ type Opts struct {
 	NoEnum      bool
 	MinMaxProps bool
 	Text        func(*rapid.T, string) string // free text (descriptions)
+	ExtValue    func(*rapid.T, string) any    // extension values
 }
 
 func (o *Opts) allOfRefs() []string {
@@ -437,7 +438,11 @@ func Schema(t *rapid.T, label string, o *Opts, depth int) J {
 		s["x-nullable"] = rapid.Bool().Draw(t, label+"_xnv")
 	}
 	if o.Extensions && chance(t, label+"_hasext", 10) {
-		s["x-"+PlainName(t, label+"_extk")] = rapid.SampledFrom([]any{"v", 1, true, A{"a"}, J{"k": "v"}}).Draw(t, label+"_extv")
+		if o.ExtValue != nil {
+			s["x-"+PlainName(t, label+"_extk")] = o.ExtValue(t, label+"_extv")
+		} else {
+			s["x-"+PlainName(t, label+"_extk")] = rapid.SampledFrom([]any{"v", 1, true, A{"a"}, J{"k": "v"}}).Draw(t, label+"_extv")
+		}
 	}
 	return s
 }
